@@ -290,8 +290,19 @@ func (m *ibtpModel) afterBlock(h uint64, txs []*pb.BxhTransaction, metas []*txMe
 	}
 	got := map[string][]string{}
 	if ref.Meta != nil {
+		groupIDs := map[string]bool{}
+		for _, tx := range txs {
+			if ib := tx.IBTP; ib != nil && ib.Group != nil {
+				groupIDs[fmt.Sprintf("%s-%s-%d", ib.From, ib.To, ib.Index)] = true
+			}
+		}
 		for c, sl := range ref.Meta.TimeoutCounter {
-			got[c] = append([]string(nil), sl.Slice...)
+			for _, id := range sl.Slice {
+				if groupIDs[id] || (s.grp != nil && s.grp.byChild[id] != nil) {
+					continue // children of one-to-many groups are judged by the group model
+				}
+				got[c] = append(got[c], id)
+			}
 		}
 	}
 	for c := range expect {
